@@ -35,6 +35,8 @@ fn sdist(a: u16, b: u16) -> i32 {
 
 pub struct Monitors {
     pub cfg: SoloCfg,
+    /// when the scripted peer last acknowledged (cumulatively or selectively) something new
+    pub last_news_t: Option<u64>,
     pub all_findings: Vec<Finding>,
     // ---- sender side (the endpoint's data on the wire) ----
     pub tx: BTreeMap<u16, TxSeg>,
@@ -101,6 +103,7 @@ pub struct Monitors {
 impl Monitors {
     pub fn new(cfg: &SoloCfg) -> Self {
         Monitors {
+            last_news_t: None,
             cfg: cfg.clone(),
             all_findings: vec![],
             tx: BTreeMap::new(),
@@ -167,6 +170,7 @@ impl Monitors {
         if let Some(t) = self.fin_times.last() {
             out.push(now.saturating_sub(*t));
         }
+        out.push(self.last_news_t.map(|t| now.saturating_sub(t).min(self.cfg.inactivity_ms * 1_000)).unwrap_or(u64::MAX));
         out.push(self.peer_last_wnd as u64);
         out.push(self.largest_payload_seen as u64);
         out.push(self.largest_payload_acked as u64);
@@ -267,6 +271,23 @@ impl Monitors {
             if t.to_lowercase().starts_with("bug") {
                 let kind: String = t.chars().take(40).collect();
                 v.push(f("C10", "bug-error", format!("bug-error/{kind}"), format!("internal error surfaced: {t}")));
+            }
+        }
+        // C02: a sender does not give up on a peer that keeps reporting newly received data (cumulatively or
+        // selectively): death by inactivity needs a full inactivity timeout without such news
+        if let (Some(Err(e)), Some(ob)) = (&rec.d_result, &rec.obs_before) {
+            if e.contains("inactive for too long") && ob.state == "established" {
+                if let Some(t) = self.last_news_t {
+                    let idle = rec.t_us.saturating_sub(t);
+                    if idle + 1_000 < self.cfg.inactivity_ms * 1_000 {
+                        v.push(f(
+                            "C02",
+                            "liveness",
+                            "liveness/gave-up-on-a-peer-that-kept-acknowledging",
+                            format!("the connection ended with '{e}' only {idle} us after the peer acknowledged data it had not acknowledged before (inactivity timeout {} ms)", self.cfg.inactivity_ms),
+                        ));
+                    }
+                }
             }
         }
         if rec.livelock {
@@ -373,6 +394,7 @@ impl Monitors {
             if newly > 0 {
                 self.bytes_acked += newly;
                 self.after_rto = None;
+                self.last_news_t = Some(rec.t_us);
             }
             if let Some(rp) = self.episode {
                 if sdist(h.ack, rp) >= 0 {
